@@ -55,6 +55,7 @@ struct RBStack {
   TickitRect clip;
   TickitPen *pen;
   unsigned int pen_only : 1;
+  unsigned int vc_pos_set : 1;
 };
 
 struct TickitRenderBuffer {
@@ -656,6 +657,7 @@ void tickit_renderbuffer_save(TickitRenderBuffer *rb)
 
   RBStack *stack = malloc(sizeof(struct RBStack));
 
+  stack->vc_pos_set = rb->vc_pos_set;
   stack->vc_line    = rb->vc_line;
   stack->vc_col     = rb->vc_col;
   stack->xlate_line = rb->xlate_line;
@@ -694,6 +696,7 @@ void tickit_renderbuffer_restore(TickitRenderBuffer *rb)
   rb->stack = stack->prev;
 
   if(!stack->pen_only) {
+    rb->vc_pos_set = stack->vc_pos_set;
     rb->vc_line    = stack->vc_line;
     rb->vc_col     = stack->vc_col;
     rb->xlate_line = stack->xlate_line;
